@@ -38,17 +38,34 @@ class _File(io.StringIO):
     encoding = "utf-8"
 
 
-def make_console(width):
+def _cenv(c):
+    """console spec: an int (width) or (width, ascii_only, legacy_windows, color_system)"""
+    if isinstance(c, int):
+        return (c, False, False, None)
+    return tuple(c)
+
+
+class _AsciiFile(io.StringIO):
+    encoding = "ascii"
+
+
+def make_console(cenv):
     from rich.console import Console
 
-    c = Console(width=width, height=25, file=_File(), color_system=None, legacy_windows=False, safe_box=True, no_color=False,
-                force_terminal=False, force_jupyter=False, _environ={})
-    assert c.width == width and not c.options.ascii_only and not c.options.legacy_windows and c.tab_size == 8
+    width, ascii_only, legacy, color_system = _cenv(cenv)
+    c = Console(width=width, height=25, file=_AsciiFile() if ascii_only else _File(), color_system=color_system, legacy_windows=legacy,
+                safe_box=True, no_color=False, force_terminal=False, force_jupyter=False, _environ={})
+    assert c.width == width and c.options.ascii_only == ascii_only and c.options.legacy_windows == legacy and c.tab_size == 8
+    assert c.color_system == color_system
     return c
 
 
-def env_enc(width):
-    return f"{width},0,0,1,0,0"
+COLOR_SYSTEMS = [None, "standard", "256", "truecolor", "windows"]
+
+
+def env_enc(cenv):
+    width, ascii_only, legacy, color_system = _cenv(cenv)
+    return f"{width},{enc_bool(ascii_only)},{enc_bool(legacy)},1,0,{COLOR_SYSTEMS.index(color_system)}"
 
 
 class Cast:
@@ -114,6 +131,8 @@ def build(e):
     k = e[0]
     if k == "T":
         return build_text(e[1])
+    if k == "S":
+        return e[1]
     if k == "PAD":
         return Padding(build(e[3]), tuple(e[1]), expand=e[2])
     if k == "PANEL":
@@ -121,6 +140,12 @@ def build(e):
         o["box"] = getattr(rbox, o.get("box", "ROUNDED"))
         if "padding" in o:
             o["padding"] = tuple(o["padding"])
+        if o.pop("title_styled", False) and o.get("title"):
+            from rich.text import Text
+
+            tt = Text(o["title"], style="italic")
+            tt.stylize("bold", 0, max(1, len(o["title"]) // 2))
+            o["title"] = tt
         if o.get("expand", True) is False and "width" not in o:
             o.pop("expand")
             return Panel.fit(build(e[2]), **o)
@@ -140,7 +165,14 @@ def build(e):
     if k == "GRP":
         return RenderGroup(*[build(c) for c in e[2]], fit=e[1])
     if k == "RULE":
-        return Rule(**e[1])
+        o = dict(e[1])
+        if o.pop("title_styled", False) and o.get("title"):
+            from rich.text import Text
+
+            tt = Text(o["title"], style="italic")
+            tt.stylize("bold", 0, max(1, len(o["title"]) // 2))
+            o["title"] = tt
+        return Rule(**o)
     if k == "BAR":
         o = e[1]
         return Bar(o["size"], o["begin"], o["end"], width=o.get("width"))
@@ -195,7 +227,7 @@ def _frac(x):
 
 def enc_text_obj(t):
     """Drv/C02 `decText?` format, from the REAL Text object (so the constructor's processing is part of the tie)"""
-    sid = lambda s: str(SID[s if isinstance(s, str) else str(s)])
+    sid = lambda s: str(SID.get(s if isinstance(s, str) else str(s), 5))  # styles are opaque: any other name is "5"
     spans = "/".join(f"{sp.start},{sp.end},{sid(sp.style)}" for sp in t._spans)
     return ";".join([enc_str(t.plain), str(t._length), sid(t.style), spans, J[t.justify], O[t.overflow],
                      "N" if t.no_wrap is None else enc_bool(t.no_wrap), enc_str(t.end), "N" if t.tab_size is None else str(t.tab_size)])
@@ -217,6 +249,8 @@ def toks(e, console):
     k = e[0]
     if k == "T":
         return ["T", enc_text(e[1])]
+    if k == "S":  # a str is what console.render_str makes of it (markup, emoji codes, highlighter spans)
+        return ["T", enc_text_obj(console.render_str(e[1]))]
     if k == "PAD":
         return ["PAD"] + [str(x) for x in e[1]] + [enc_bool(e[2])] + toks(e[3], console)
     if k == "PANEL":
@@ -255,7 +289,7 @@ def toks(e, console):
         nrows = len(cols[0][3]) if cols else 0
         secs = o.get("end_sections") or [False] * nrows
         box = o.get("box", "HEAVY_HEAD")
-        out = ["TABLE", "-" if box is None else box, enc_bool(o.get("show_header", True)), enc_bool(o.get("show_footer", False)),
+        out = ["TABLE", "-" if box is None else box, tri(o.get("safe_box")), enc_bool(o.get("show_header", True)), enc_bool(o.get("show_footer", False)),
                enc_bool(o.get("show_edge", True)), enc_bool(o.get("show_lines", False)), str(o.get("leading", 0))]
         out += [str(x) for x in pad]
         out += [enc_bool(o.get("pad_edge", True)), enc_bool(o.get("collapse_padding", False)), enc_bool(o.get("expand", False)),
@@ -407,6 +441,10 @@ def smin(e):
     k = e[0]
     if k == "T":
         return 2 if any(char_width(c) >= 2 for c in build_text(e[1]).plain) else 1
+    if k == "S":
+        from rich.text import Text
+
+        return 2 if any(char_width(c) >= 2 for c in Text.from_markup(e[1]).plain) else 1
     if k == "PAD":
         return e[1][3] + e[1][1] + smin(e[3])
     if k == "PANEL":
@@ -506,6 +544,8 @@ def domain(e, opts, console):
 
     if k == "T":
         return "out" if eff_overflow(e[1], opts) == "ignore" or e[1].get("end", "\n") not in ("\n", "") else "in"
+    if k == "S":
+        return "out" if opts.get("overflow") == "ignore" else "in"
     if k in ("PAD", "PANEL", "TREE", "BAR", "PBAR"):
         return "in"
     if k == "RULE":
@@ -537,12 +577,8 @@ def domain(e, opts, console):
             d = o.get(key)
             if d is not None and (eff_overflow(d, opts) == "ignore" or d.get("end", "\n") != "\n"):
                 return "out"
-        if not cols:
-            return "out"
         for co, _h, _f, _cs in cols:
             if co.get("width") is not None or co.get("min_width") is not None or co.get("no_wrap", False):
-                return "out"
-            if co.get("ratio") and (o.get("expand", False) or o.get("width") is not None):
                 return "out"
         if o.get("width") is not None:
             box = o.get("box", "HEAVY_HEAD")
@@ -553,8 +589,6 @@ def domain(e, opts, console):
     if k == "COLS":
         d = e[1].get("title")
         if d is not None and (eff_overflow(d, opts) == "ignore" or d.get("end", "\n") != "\n"):
-            return "out"
-        if e[1].get("width") is not None:
             return "out"
         return "in"
     raise ValueError(k)
@@ -651,8 +685,13 @@ def gen_pad(rng):
 TITLES = [None, None, "T", "hello title", "あ̀x", "two\nlines", "a b"]
 
 
+STRS = ["", "plain str", "a [bold]marked[/bold] up str", "emoji :smiley: code", "日本語 str 42", "two\nlines True", "x" * 17, "[red]r[/red] [b]b[/b]"]
+
+
 def gen_leaf(rng):
     r = rng.random()
+    if r < 0.08:
+        return ("S", rng.choice(STRS))
     if r < 0.72:
         return ("T", gen_text(rng))
     if r < 0.80:
@@ -663,6 +702,8 @@ def gen_leaf(rng):
             o["characters"] = rng.choice(["-", "=*", "あ", "─"])
         if rng.random() < 0.5:
             o["align"] = rng.choice(["left", "center", "right"])
+        if rng.random() < 0.25:
+            o["title_styled"] = True
         return ("RULE", o)
     if r < 0.88:
         size = rng.choice([1, 10, 100])
@@ -704,9 +745,11 @@ def gen_col_opts(rng, free):
 def gen_table(rng, d, free=None):
     if free is None:
         free = rng.random() < 0.75
-    ncols = rng.choice([1, 2, 2, 3, 4])
-    nrows = rng.choice([0, 1, 1, 2, 3])
+    ncols = rng.choice([1, 2, 2, 3, 4]) if rng.random() > 0.04 else 0
+    nrows = rng.choice([0, 1, 1, 2, 3]) if ncols else 0
     o = {"box": rng.choice(TABLE_BOXES + [None, None])}
+    if rng.random() < 0.15:
+        o["safe_box"] = rng.choice([True, False])
     for key, p in (("show_header", 0.3), ("show_footer", 0.3), ("show_edge", 0.25), ("show_lines", 0.25), ("pad_edge", 0.3),
                    ("collapse_padding", 0.3), ("expand", 0.3)):
         if rng.random() < p:
@@ -729,6 +772,8 @@ def gen_table(rng, d, free=None):
             o["caption_justify"] = rng.choice(["left", "right"])
     if nrows and rng.random() < 0.3:
         o["end_sections"] = [rng.random() < 0.4 for _ in range(nrows)]
+    if ncols >= 2 and rng.random() < 0.12:  # expanding table: ratio columns next to a wide ordinary column
+        o["expand"] = True
     cols = []
     for _ in range(ncols):
         cols.append((gen_col_opts(rng, free), gen_tree(rng, 0) if rng.random() < 0.8 else gen_tree(rng, d - 1), ("T", gen_text(rng, simple=True)),
@@ -758,6 +803,8 @@ def gen_tree(rng, d):
             o["title"] = t
             if rng.random() < 0.5:
                 o["title_align"] = rng.choice(["left", "center", "right"])
+            if rng.random() < 0.25:
+                o["title_styled"] = True
         if rng.random() < 0.35:
             o["expand"] = False
         if rng.random() < 0.2:
@@ -796,5 +843,7 @@ def gen_tree(rng, d):
             o["align"] = rng.choice(["left", "center", "right"])
         if rng.random() < 0.15:
             o["title"] = gen_text(rng, simple=True)
+        if rng.random() < 0.2:
+            o["width"] = rng.choice([0, 1, 3, 6, 10, 25])
         return ("COLS", o, [gen_tree(rng, d - 1) for _ in range(rng.choice([0, 1, 2, 3, 5]))])
     return ("TREE", gen_node(rng, d, 2))
